@@ -104,6 +104,15 @@ def check(chk):
     chk.judge(pvu is not None and 'self._cluster.protocol_downgrade(host.endpoint, e.startup_version)' in src(pvu), 'C41.loop', t, 'unsupported version -> downgrade from the version that was tried', 'downgrade starts from another version')
     pe = hs.get('ProtocolException')
     chk.judge(pe is not None and 'not self._cluster._protocol_version_explicit and e.is_beta_protocol_error' in src(pe), 'C41.loop', t, 'beta protocol error downgrades only an implicit version', 'beta error handling changed')
+    # the version a downgrade starts from is the one that was just refused: the version carried by the exception, or the cluster's current version (the one the
+    # connection was opened with in this iteration) - never a value remembered from an earlier iteration, or the sequence steps up again and does not terminate
+    for h in t.handlers:
+        for c_ in [c_ for st_ in h.body for c_ in ast.walk(st_) if isinstance(c_, ast.Call) and src(c_.func) == 'self._cluster.protocol_downgrade']:
+            frm = src(c_.args[1]) if len(c_.args) > 1 else None
+            chk.judge(frm in ('e.startup_version', 'self._cluster.protocol_version') and src(c_.args[0]) == 'host.endpoint', 'C41.loop', c_,
+                      'except %s: downgrade from %s' % (src(h.type), frm),
+                      'the downgrade in the %s arm starts from %s, which is not refreshed by the loop: after two downgrades the next one is computed from the stale value again, the versions '
+                      'tried go down and up (66, 65, 5, 65, 5 ...) and the negotiation never ends' % (src(h.type), frm))
     # other handlers? any broad handler would swallow the raise of protocol_downgrade
     chk.judge(set(hs) == set(['ProtocolVersionUnsupported', 'ProtocolException']), 'C41.loop', t, 'no broader handler inside the loop', 'handlers: %s' % sorted(hs))
 
